@@ -1213,13 +1213,28 @@ fn r_memory_to_calldata(t: &RTree) -> Vec<Verdict> {
                 None => false,
             };
             let dup = name.as_ref().map(|nm| f.params.iter().filter(|(_, q)| q.as_ref().and_then(|q| q.name.as_ref()).map(|x| &x.name == nm).unwrap_or(false)).count() > 1).unwrap_or(false);
-            let must = member && public && name.is_some() && body.is_some() && !any_write && !dup && matches!(f.ty, pt::FunctionTy::Function | pt::FunctionTy::Fallback);
+            // a function named after its own contract is a constructor in the pre-0.5.0 language: gray
+            let old_style_ctor = match (&f.name, enclosing_contract_name(t, fi)) {
+                (Some(n), Some(c)) => n.name == c,
+                _ => false,
+            };
+            let must = member && public && name.is_some() && body.is_some() && !any_write && !dup && !old_style_ctor && matches!(f.ty, pt::FunctionTy::Function | pt::FunctionTy::Fallback);
             let mut vd = v(t, pc, must, "memory parameter never written");
             vd.anchors.push(mem_loc);
             out.push(vd);
         }
     }
     out
+}
+
+fn enclosing_contract_name(t: &RTree, mut i: usize) -> Option<String> {
+    while let Some(p) = t.nodes[i].parent {
+        if let PtRef::Part(pt::SourceUnitPart::ContractDefinition(c)) = t.nodes[p].pt {
+            return Some(c.name.name.clone());
+        }
+        i = p;
+    }
+    None
 }
 
 // 8.24
